@@ -185,8 +185,8 @@ theorem decT_eof_some (cap : Nat) : ∀ (src : BytesN) (a : Bool) (sg : Option B
       simp only [decT, hp', Bool.not_true, Bool.false_eq_true, if_false, ne_eq, hx,
         not_false_eq_true, if_true]
       rw [if_neg (by omega), ih]
-      simp only [TRes.mk.injEq, pendLen, List.append_assoc, and_true, true_and]
-      and_intros <;> first | omega | simp
+      simp only [TRes.mk.injEq, pendLen, List.append_assoc, and_true]
+      and_intros <;> omega
     · have hx' : x = 38 := by
         by_cases h38 : x = 38
         · exact h38
@@ -217,9 +217,8 @@ theorem decT_eof_some (cap : Nat) : ∀ (src : BytesN) (a : Bool) (sg : Option B
           simp only [List.isEmpty_nil] at ht
           simp only [decT, if_true, List.isEmpty_nil]
           rw [if_neg (by omega), ih]
-          simp only [TRes.mk.injEq, pendLen, List.length_nil, List.append_assoc, and_true,
-            true_and]
-          and_intros <;> first | omega | simp
+          simp only [TRes.mk.injEq, pendLen, List.length_nil, List.append_assoc, and_true]
+          and_intros <;> omega
         · subst ha
           have hemp : acc.isEmpty = false := by cases acc <;> simp_all
           rw [hemp] at ht
@@ -227,9 +226,8 @@ theorem decT_eof_some (cap : Nat) : ∀ (src : BytesN) (a : Bool) (sg : Option B
             (nSrc + acc.length + 2) (out ++ o.flatMap utf8enc) t ht (by omega)
           simp only [decT, if_true, hemp, Bool.false_eq_true, if_false, Bool.not_true, hd]
           rw [if_neg (by omega), ih]
-          simp only [TRes.mk.injEq, pendLen, List.length_cons, List.append_assoc, and_true,
-            true_and]
-          and_intros <;> first | omega | simp
+          simp only [TRes.mk.injEq, pendLen, List.length_cons, List.append_assoc, and_true]
+          and_intros <;> omega
     · have ih := decT_eof_some cap xs a (some (acc ++ [x])) nDst nSrc out cs h hcap
       simp only [decT, h45, hcr, if_false]
       rw [ih]
